@@ -230,6 +230,20 @@ def check_cycle(g, label=""):
         err2, g2 = None, None
         try:
             g2 = Graph.from_g2o(path)
+            # history: the user of an earlier load edited its arrays in place (down-weighting edges, moving a vertex); what a
+            # LATER load of the same file returns is about the file, not about that working copy
+            for e_ in g2._edges:
+                a_ = np.asarray(e_.information)
+                if a_.ndim == 2 and a_.flags.writeable:
+                    a_ *= 0.5
+                est_ = np.asarray(e_.estimate)
+                if est_.ndim == 1 and est_.flags.writeable and est_.dtype == np.float64:
+                    est_ += 0.25
+            for v_ in g2._vertices:
+                p_ = np.asarray(v_.pose)
+                if p_.flags.writeable:
+                    p_[: min(2, p_.size)] += 1.5
+            g2 = Graph.from_g2o(path)
         except Exception as e:  # noqa: BLE001
             err2 = type(e).__name__
         os.remove(path)
